@@ -410,6 +410,17 @@ def synth_samples():
     if os.path.exists(p):
         d = open(p, "rb").read()
         out.append(("synth-id3-prefixed.flac", b"ID3\x03\0\0\0\0\0\x0aTIT2\0\0\0\0\0\0" + d, True))
+    # multiplexed Ogg (Vorbis + text + Theora, all first pages first): the Vorbis first page lies inside the 128 header bytes
+    # the scores see, the Theora one behind them -- the type every order of options has to agree on is the one whose
+    # marker the header shows (the extension follows it)
+    pv, pt = os.path.join(REPO, "tests", "data", "empty.ogg"), os.path.join(REPO, "tests", "data", "sample.oggtheora")
+    if os.path.exists(pv) and os.path.exists(pt):
+        try:
+            from fam import synth_ogg as SO
+            d = SO.vorbis_text_theora(SO.ident_packet(open(pv, "rb").read(), "vorbis"), SO.ident_packet(open(pt, "rb").read(), "theora"))
+            out.append(("synth-vorbis-text-theora.ogg", d, True))
+        except Exception:
+            pass
     return out
 
 
